@@ -1140,8 +1140,15 @@ func (app *App) ErrorHandler(ctx Ctx, err error) error {
 		mountedPrefixLen  int
 	)
 
+	// mount prefixes are compared the way routes are matched: ignoring letter case unless CaseSensitive
 	path := ctx.Path()
+	if !app.config.CaseSensitive {
+		path = utils.ToLower(path)
+	}
 	for prefix, subApp := range app.mountFields.appList {
+		if !app.config.CaseSensitive {
+			prefix = utils.ToLower(prefix)
+		}
 		// the mount prefix has to contain the path on a segment boundary
 		if prefix == "" || !strings.HasPrefix(path, prefix) {
 			continue
